@@ -265,6 +265,10 @@ pub fn run(seed: u64, shard: u64, nshards: u64, cases: u64, rounds: usize, threa
                     viols.push(("C11", "C11:teosd-exited".into(), format!("soak {id} round {round}: teosd exited")));
                     break;
                 }
+                if viols.iter().any(|v| v.1.starts_with("C11:no-progress")) {
+                    // a tower that has stopped answering has no quiescent point to inspect (its private API would not answer either)
+                    break;
+                }
                 // ---- quiescent: invariants
                 let snap = match Snap::read(&cfg.db_path) {
                     Ok(sn) => sn,
